@@ -877,14 +877,14 @@ Qed.
 
 (* FINDING (reported, corpus/c14/suggested_constraint_linebreak.diff): inside brackets a line break between a type
    variable and the ':' of its constraint list changes acceptance - the look-ahead steps over the newline, skip(2)
-   counts it.  The model reproduces it; C14_nl_in_brackets_full does not cover it because `fn` is not allowed inside
-   a simple group. *)
-Example C14_finding_constraint_linebreak :
+   counted it.  Repaired in /repo 7100aa8 (skip(1).skip(1)); the model follows: both layouts are accepted now.
+   (C14_nl_in_brackets_full does not cover this shape because `fn` is not allowed inside a simple group.) *)
+Example C14_finding_constraint_linebreak_fixed :
   let a := (codes "f : (fn<V: CmpEqu> *V -> void) : external" ++ [10]%N)%list in
   let b := (codes "f : (fn<V" ++ [10]%N ++ codes ": CmpEqu> *V -> void) : external" ++ [10]%N)%list in
   let ta := map classify (lex gen_table a) in let tb := map classify (lex gen_table b) in
   (exists ss c, parse_program gen_ptab (parse_fuel ta) ta = Ok (ss, c)) /\
-  (exists c es, parse_program gen_ptab (parse_fuel tb) tb = Err c es).
+  (exists ss c, parse_program gen_ptab (parse_fuel tb) tb = Ok (ss, c)).
 Proof. split; vm_compute; eexists; eexists; reflexivity. Qed.
 
 Example C14_example_source_to_tree :
